@@ -33,7 +33,13 @@ PY
 run)
   name=$1; shift
   git -C /repo apply /verif/seeded/$name/patch.diff || { echo "patch does not apply"; exit 1; }
+  rm -rf /verif/.evidence_keep && cp -r /verif/evidence /verif/.evidence_keep    # evidence of seeded runs is never kept
   for id in "$@"; do (cd /verif && ./check $id 2>&1 | grep -v conda | grep "VIOLATION\|UNDECIDED\|SELFCHECK\|^C[0-9]*:" | cut -c1-220 | head -12); done
   git -C /repo checkout -- .
+  rm -rf /verif/evidence && mv /verif/.evidence_keep /verif/evidence
+  ;;
+all)
+  # run every registered check (quick) on the current tree, 4 at a time
+  cd /verif && ls contracts | sed -n 's/^\(C[0-9][0-9]\)\.py$/\1/p' | xargs -P 4 -I{} sh -c './check {} 2>&1 | grep "^C[0-9]*: \|VIOLATION\|UNDECIDED\|SELFCHECK" | cut -c1-200'
   ;;
 esac
